@@ -933,4 +933,60 @@ for all: lib.pkg.comp
 end for;",
         );
     }
+
+    #[test]
+    fn format_configuration_specification_without_entity_aspect() {
+        check_declaration("for all: lib.pkg.comp;");
+        check_declaration(
+            "\
+for all: lib.pkg.comp;
+end for;",
+        );
+        check_declaration(
+            "\
+for all: lib.pkg.comp;
+    use vunit bar, baz;
+end for;",
+        );
+        check_declaration(
+            "\
+for all: lib.pkg.comp
+    generic map (
+        n => 1
+    );",
+        );
+        check_declaration(
+            "\
+for all: lib.pkg.comp
+    port map (
+        p => s
+    );",
+        );
+        check_declaration(
+            "\
+for all: lib.pkg.comp
+    generic map (
+        n => 1
+    )
+    port map (
+        p => s
+    );
+end for;",
+        );
+    }
+
+    #[test]
+    fn format_configuration_specification_with_map_aspects() {
+        check_declaration(
+            "\
+for all: lib.pkg.comp
+    use entity work.foo(rtl)
+        generic map (
+            n => 1
+        )
+        port map (
+            p => s
+        );",
+        );
+    }
 }
